@@ -83,6 +83,19 @@ func main() {
 				}
 			}
 		}
+	case "debug-nil":
+		if len(os.Args) > 2 {
+			repoRoot = os.Args[2]
+		}
+		p := loadResolve("", true)
+		ok, bad := nilSpanRule(p)
+		fmt.Println("protected", len(ok), "unprotected", len(bad))
+		for _, b := range bad {
+			fmt.Printf("UNPROTECTED %s: %s in %s (%s)\n", p.pos(b.use.Pos()), b.field, fnKey(b.fn), b.use)
+		}
+		for _, b := range ok {
+			fmt.Printf("ok %s: %s in %s\n", p.pos(b.use.Pos()), b.field, fnKey(b.fn))
+		}
 	case "debug-scc":
 		p := loadResolve("", true)
 		for _, c := range recursiveSCCs(p) {
